@@ -60,6 +60,7 @@ pub fn gen_cgr_case(rng: &mut Rng, tier: &str, prop: &str, k: usize) -> Case {
             mega_1_in: 0,
             twin_mega_1_in: 0,
             many_1_in: if k > 0 && k <= 5 { 500 } else { 1500 },
+            overflow_top_w: 1,
     };
     let mut records = g.gen(rng);
     if k >= 6 {
